@@ -31,6 +31,8 @@ pub fn opts() -> GenOpts {
     // `--point X [Y]`: a defaulted word at the end of an adjacent group
     o.adjacent_optional_words = true;
     o.adjacent_cmds = true;
+    // `sleep [SECONDS]` inside a chain of adjacent commands
+    o.adjacent_cmd_default_word = true;
     o
 }
 
@@ -178,7 +180,172 @@ fn nesting(spec: &OptSpec, id: Id) -> Nesting {
     n
 }
 
+/// an adjacent command on the line whose defaulted word is not written
+fn absent_default_word_of_adjacent_command(spec: &OptSpec, units: &[U]) -> bool {
+    fn cmds<'a>(s: &'a Spec, out: &mut Vec<&'a CmdSpec>) {
+        match s {
+            Spec::Cmd(c) => {
+                out.push(c);
+                cmds(&c.opts.root, out);
+            }
+            Spec::Wrap { inner, .. } => cmds(inner, out),
+            Spec::Seq(xs) | Spec::Alt(xs) | Spec::Adj(xs) => xs.iter().for_each(|x| cmds(x, out)),
+            _ => {}
+        }
+    }
+    let mut all = Vec::new();
+    cmds(&spec.root, &mut all);
+    for c in all {
+        if !c.adjacent {
+            continue;
+        }
+        let word = match &c.opts.root {
+            Spec::Seq(xs) => xs.iter().find_map(|x| match x {
+                Spec::Wrap {
+                    w: W::Fallback | W::FallbackWithOk,
+                    inner,
+                    ..
+                } => match &**inner {
+                    Spec::Item(i) if i.is_pos() => Some(i.id),
+                    _ => None,
+                },
+                _ => None,
+            }),
+            _ => None,
+        };
+        let word = match word {
+            Some(w) => w,
+            None => continue,
+        };
+        let names = units
+            .iter()
+            .filter(|u| matches!(&u.kind, UKind::CmdName { id, .. } if *id == c.id))
+            .count();
+        let words = units
+            .iter()
+            .filter(|u| matches!(&u.kind, UKind::Word { item, .. } if *item == word))
+            .count();
+        if names != words {
+            return true;
+        }
+    }
+    false
+}
+
+/// `sleep [SECONDS]` in a chain of adjacent commands next to trailing words of the enclosing level:
+/// a word right behind the command's own items that is not a number is the command's word, given
+/// and invalid - not something for the default to paper over
+fn adjacent_command_defaulted_word(case: &mut Case) {
+    let mut rng = case.rng(3);
+    let mk = |id: Id, names: Names, leaf: Leaf| {
+        Spec::Item(Item {
+            id,
+            names,
+            help: None,
+            leaf,
+        })
+    };
+    let word = |id: Id, ty: Ty| {
+        mk(
+            id,
+            Names::default(),
+            Leaf::Pos {
+                ty,
+                metavar: format!("M{}", id),
+                strict: Strict::Any,
+            },
+        )
+    };
+    let w = if rng.chance(1, 2) {
+        W::Fallback
+    } else {
+        W::FallbackWithOk
+    };
+    let mut fields = Vec::new();
+    let with_flag = rng.chance(1, 2);
+    if with_flag {
+        fields.push(mk(2, Names::long("force"), Leaf::Switch));
+    }
+    fields.push(Spec::wrap(w, 4, word(3, Ty::U32)));
+    let mut opts = OptSpec::plain(Spec::Seq(fields));
+    opts.descr = Some("D1-descr".into());
+    let sleep = Spec::Cmd(Box::new(CmdSpec {
+        id: 1,
+        names: vec!["sleep".into()],
+        shorts: vec![],
+        help: None,
+        adjacent: true,
+        opts,
+    }));
+    let mut o2 = OptSpec::plain(Spec::Seq(vec![mk(6, Names::long("fast"), Leaf::Switch)]));
+    o2.descr = Some("D5-descr".into());
+    let eat = Spec::Cmd(Box::new(CmdSpec {
+        id: 5,
+        names: vec!["eat".into()],
+        shorts: vec![],
+        help: None,
+        adjacent: true,
+        opts: o2,
+    }));
+    let chain = if rng.chance(1, 2) {
+        Spec::wrap(W::Many { catch: false }, 7, Spec::Alt(vec![sleep, eat]))
+    } else {
+        sleep
+    };
+    let is_chain = matches!(chain, Spec::Wrap { .. });
+    let rest = Spec::wrap(W::Many { catch: false }, 9, word(8, Ty::Str));
+    let b = Bench::new(case, OptSpec::plain(Spec::Seq(vec![chain, rest])));
+    let mut argv: Vec<Vec<u8>> = vec![b"sleep".to_vec()];
+    if with_flag && rng.chance(1, 2) {
+        argv.push(b"--force".to_vec());
+    }
+    let bad: &[u8] = *rng.pick(&[&b"12x"[..], b"soon", b"1.5"]);
+    argv.push(bad.to_vec());
+    if with_flag && rng.chance(1, 3) && !argv.contains(&b"--force".to_vec()) {
+        argv.push(b"--force".to_vec());
+    }
+    if is_chain && rng.chance(1, 2) {
+        argv.push(b"eat".to_vec());
+    }
+    for k in 0..rng.below(3) {
+        argv.push(format!("w{}", k).into_bytes());
+    }
+    let class = "invalid:conversion:adjacent-command-defaulted-word";
+    let (out, _) = b.run(case, &argv, class);
+    match &out {
+        Outcome::Stderr { .. } => case.rep.count("adjacent-command-defaulted-word:rejected"),
+        Outcome::Panic(_) | Outcome::FuelExhausted => {}
+        other => case.rep.violation(
+            "invalid-value-masked:adjacent-command-defaulted-word",
+            "masking",
+            case.index,
+            b.detail(
+                &argv,
+                class,
+                &format!("Stderr (the word {:?} follows the command's items and is not a number)", show_bytes(bad)),
+                other,
+            ),
+        ),
+    }
+    // the same line with a number is a sentence
+    let pos = argv.iter().position(|a| a.as_slice() == bad).unwrap_or(1);
+    argv[pos] = b"15".to_vec();
+    let (out, _) = b.run(case, &argv, "adjacent-command-defaulted-word:valid");
+    if !matches!(out, Outcome::Value(_) | Outcome::Panic(_) | Outcome::FuelExhausted) {
+        case.rep.violation(
+            "adjacent-command-defaulted-word:valid-line-rejected",
+            "defaults",
+            case.index,
+            b.detail(&argv, "adjacent-command-defaulted-word:valid", "a value", &out),
+        );
+    }
+}
+
 pub fn run_case(case: &mut Case) {
+    if case.index % 16 == 7 {
+        adjacent_command_defaulted_word(case);
+        return;
+    }
     let mut rng = case.rng(0);
     let spec = gen_options(&mut rng, opts());
     let b = Bench::new(case, spec);
@@ -198,6 +365,12 @@ pub fn run_case(case: &mut Case) {
             Some(u) => u,
             None => continue,
         };
+        if absent_default_word_of_adjacent_command(&b.spec, &units) {
+            // the word that follows (a word of the enclosing level, the next command name) would
+            // be read as the absent defaulted word of the command
+            case.rep.count("skipped:adjacent-command-with-absent-defaulted-word");
+            continue;
+        }
         if super::c19::absent_words_then_word(&b.spec, &units) {
             // a block whose defaulted words are absent takes the word that follows it
             case.rep.count("skipped:word-right-after-block-with-absent-optional-words");
